@@ -982,6 +982,9 @@ func fitsReservation(podRequest corev1.ResourceList, rInfo *frameworkext.Reserva
 		allocatedPods := rInfo.GetAllocatedPods()
 		if preemptiblePodsInRR, found := preemptibleInRR[corev1.ResourcePods]; found {
 			allocatedPods -= int(preemptiblePodsInRR.Value()) // assert no overflow
+			if allocatedPods < 0 { // a victim that is only nominated to the reservation is not among its allocated pods
+				allocatedPods = 0
+			}
 		}
 		if int64(allocatedPods)+1 > maxPods.Value() {
 			if !isDetailed {
